@@ -28,6 +28,15 @@ def objects(ctx):
         out.append(('message', 'message', m, 'literal n=%d' % n))
     m = pgpy.PGPMessage.new('compressed text ' * 50)
     out.append(('message', 'message', m, 'compressed'))
+    # a message whose binary export has CRC-24 zero: the last three content octets are the CRC of everything before them
+    from pgpy.types import Armorable
+    zc = pgpy.PGPMessage.new(b'zero crc payload ....' + b'\x00\x00\x00', compression=CompressionAlgorithm.Uncompressed, format='b')
+    raw = bytes(zc)
+    c0 = _crc24(raw[:-3])
+    zc = pgpy.PGPMessage.new(b'zero crc payload ....' + c0.to_bytes(3, 'big'), compression=CompressionAlgorithm.Uncompressed, format='b')
+    zc._message.mtime = pgpy.PGPMessage.from_blob(raw)._message.mtime
+    if _crc24(bytes(zc)) == 0:
+        out.append(('message', 'message', zc, 'literal zero-crc'))
     m = pgpy.PGPMessage.new('signed inline', compression=CompressionAlgorithm.Uncompressed)
     m |= k.sign(m, created=K.ts(K.T0 + 30))
     out.append(('message', 'message', m, 'inline signed'))
@@ -54,6 +63,17 @@ def objects(ctx):
     cm2 |= rk.sign(cm2, created=K.ts(K.T0 + 35), hash=HashAlgorithm.SHA512)
     out.append(('signature', 'cleartext', cm2, 'cleartext two signers'))
     return out
+
+
+def _crc24(data):
+    crc = 0xB704CE
+    for b in data:
+        crc ^= b << 16
+        for _ in range(8):
+            crc <<= 1
+            if crc & 0x1000000:
+                crc ^= 0x1864CFB
+    return crc & 0xFFFFFF
 
 
 HEADER_SETS = [[], [['Version', 'PGPy v0.6']], [['Comment', 'a comment with: colon and spaces']],
@@ -143,7 +163,7 @@ def read_events(ctx, wev):
 def corruption_events(ctx, wev):
     """every single-character corruption of the radix-64 body and the checksum line of small blocks."""
     ev = []
-    small = [e for e in wev if e['label'] in ('detached signature', 'literal n=5', 'literal n=17', 'cleartext signed message') or
+    small = [e for e in wev if e['label'] in ('detached signature', 'literal n=5', 'literal n=17', 'cleartext signed message', 'literal zero-crc') or
              (not ctx.quick and e['label'] in ('literal n=48', 'literal n=49', 'public key uidlen=1'))]
     repl = 'Az09+/=' if not ctx.quick else 'Bz=+'
     for e in small:
@@ -167,6 +187,13 @@ def corruption_events(ctx, wev):
                 out, crcw, payload, hdrs = load(e['expect'], vtext)
                 ev.append({'k': 'read', 'text': codepoints(vtext), 'expect': e['expect'], 'must_load': False, 'out': out, 'crcwarned': crcw,
                            'bin': octets(payload) if payload is not None else [], 'label': '%s / char %d -> %r' % (e['label'], o, c)})
+        # the checksum line replaced by the encoding of zero (a wrong checksum that happens to be 0)
+        crcline = next(i for i in range(blank + 1, end) if lines[i].startswith('=') and len(lines[i]) == 5)
+        if lines[crcline] != '=AAAA':
+            vtext = '\n'.join('=AAAA' if i == crcline else l for i, l in enumerate(lines))
+            out, crcw, payload, hdrs = load(e['expect'], vtext)
+            ev.append({'k': 'read', 'text': codepoints(vtext), 'expect': e['expect'], 'must_load': False, 'out': out, 'crcwarned': crcw,
+                       'bin': octets(payload) if payload is not None else [], 'label': '%s / checksum line replaced by =AAAA' % e['label']})
         # structural corruptions: dropped checksum line, truncated body, deleted character
         for name, vtext in (('checksum line removed', '\n'.join(l for i, l in enumerate(lines) if not (blank < i < end and l.startswith('=') and len(l) == 5))),
                             ('one body character deleted', text[:offs[3]] + text[offs[3] + 1:]),
